@@ -54,6 +54,9 @@ static int get_register(const char *token)
       n = (n * 10) + (*s - '0');
       count++;
 
+      // There are 64 registers (and more digits would wrap).
+      if (n > 63) { return -1; }
+
       // Disallow leading 0's on registers
       if (n == 0 && count >1) { return -1; }
 
